@@ -2,7 +2,7 @@
    (any sequence of BIO calls, results and errors), for every oracle script of the operating system.
    What is NOT proved here: that OpenSSL encrypts and completes handshakes — the engine is an oracle (see DESIGN.md);
    the handshake's progress in driver mode is decided by the correspondence check's liveness monitor (gen/c18.py). *)
-From SP Require Import Base ListAux Os OsLemmas WaitModel WaitLemmas SocketModel Objects DriverModel TlsModel TlsLemmas Sim.
+From SP Require Import Base ListAux Os OsLemmas WaitModel WaitLemmas SocketModel Objects DriverModel TlsModel TlsLemmas TlsEmits TlsBracket Sim.
 Local Open Scope Z_scope.
 
 Local Notation os := (os ext).
@@ -13,6 +13,29 @@ Local Notation os := (os ext).
 Theorem outside_the_engine_the_glue_only_waits : forall k err (s : os) r s',
   handle_result k err s = (r, s') -> exists new, extends s s' new /\ only_wait_entries new.
 Proof. intros k err. exact (handle_result_waits k err). Qed.
+
+(* ... and as a statement about WHOLE operations: scanning the trace segment of a TLS Send / Receive (both variants) /
+   SendSome / DriverPending / Shutdown in chronological order and counting K_ENGCALL (+1) and K_ENG (-1), every send() and
+   recv() entry is met at depth >= 1, i.e. inside an engine call ([scan 0 ... <> None]); on a normal return the depth is back
+   where it started ([bracketed]). The glue never touches the connection itself: whatever is on the wire is what the
+   engine's BIO callbacks wrote. *)
+Theorem send_io_inside_engine : forall k size T (s : os) r s',
+  tls_send k size T s = (r, s') -> exists new, extends s s' new /\ scan 0 (rev new) <> None.
+Proof. intros k size T. apply no_io_outside_the_engine, TlsBracket.send_io_inside_engine. Qed.
+
+Theorem receive_io_inside_engine : forall k size T (s : os) r s',
+  tls_receive k size T s = (r, s') -> exists new, extends s s' new /\ scan 0 (rev new) <> None.
+Proof. intros k size T. apply no_io_outside_the_engine, TlsBracket.receive_io_inside_engine. Qed.
+
+Theorem driver_paths_io_inside_engine : forall k size,
+  bracketed (tls_send_some k size) /\ bracketed (tls_receive_now k size) /\ bracketed (tls_pending k) /\ bracketed (tls_shutdown k).
+Proof.
+  intros k size. repeat split.
+  - apply TlsBracket.send_some_io_inside_engine.
+  - apply TlsBracket.receive_now_io_inside_engine.
+  - apply TlsBracket.pending_io_inside_engine.
+  - apply TlsBracket.shutdown_io_inside_engine.
+Qed.
 
 (* Application data reaches the caller only from the engine: a Receive that reports n > 0 bytes returns exactly what the
    engine's last SSL_read returned (so: nothing before the engine has completed the handshake, nothing from a peer that
@@ -100,6 +123,32 @@ Proof.
   apply has_bit_lor_self. unfold POLLOUT. lia.
 Qed.
 
+(* Which engine calls each entry point makes, for every script: DriverPending() (the driver found the socket writable during
+   the handshake) only advances the handshake — every K_ENGCALL entry it produces is SSL_do_handshake (4), so it cannot take
+   application data out of the engine (finding F8 was exactly that); Send makes SSL_write_ex calls only, Receive SSL_read
+   calls only. [engine_kind c e]: e is a system-call / BIO / engine-result entry, or an engine entry of kind c. *)
+Theorem pending_only_advances_the_handshake : forall k (s : os) r s',
+  tls_pending k s = (r, s') -> exists new, extends s s' new /\ Forall (engine_kind 4) new.
+Proof. intros k. exact (TlsEmits.pending_only_advances_the_handshake k). Qed.
+
+Theorem send_only_writes : forall k size T (s : os) r s',
+  tls_send k size T s = (r, s') -> exists new, extends s s' new /\ Forall (engine_kind 2) new.
+Proof. intros k size T. exact (TlsEmits.send_only_writes k size T). Qed.
+
+Theorem receive_only_reads : forall k size T (s : os) r s',
+  tls_receive k size T s = (r, s') -> exists new, extends s s' new /\ Forall (engine_kind 1) new.
+Proof. intros k size T. exact (TlsEmits.receive_only_reads k size T). Qed.
+
+(* an unlimited Receive never reports "nothing" (C07 on TLS): the code asserts it, the model marks the violation Stuck *)
+Theorem unlimited_receive_never_nothing : forall k size T (s : os) s',
+  tls_receive k size T s = (Ok None, s') -> 0 <= T.
+Proof.
+  intros k size T s s' H. unfold tls_receive in H.
+  apply bind_inv in H. destruct H as [[[] [s1 [_ H]]]|[r0 [_ [_ Hx]]]]; [|exfalso; exact (recast_not_ok _ _ Hx)].
+  apply bind_inv in H. destruct H as [[m [s2 [_ H2]]]|[r0 [_ [_ Hx]]]]; [|exfalso; exact (recast_not_ok _ _ Hx)].
+  destruct (0 <? m); [inversion H2|]. destruct (T <? 0) eqn:E; [inversion H2|]. apply Z.ltb_ge in E. exact E.
+Qed.
+
 (* non-vacuity: a client that sends 5 bytes with unlimited time-out: handshake flights, then the record *)
 Example tls_client_send :
   let tr := run_case [(80, [1]); (23, [1; 5; -1])]
@@ -116,3 +165,10 @@ Print Assumptions write_accounting.
 Print Assumptions query_requests_write_only_for_handshake.
 Print Assumptions suppressed_write_poll_is_restored.
 Print Assumptions idle_client_requests_write.
+Print Assumptions pending_only_advances_the_handshake.
+Print Assumptions send_only_writes.
+Print Assumptions receive_only_reads.
+Print Assumptions unlimited_receive_never_nothing.
+Print Assumptions send_io_inside_engine.
+Print Assumptions receive_io_inside_engine.
+Print Assumptions driver_paths_io_inside_engine.
